@@ -9,10 +9,86 @@ ENGINE_OF = {p: e for e, ps in ENG.items() for p in ps}
 
 # id -> (category, technique, level text, level note, design ref)
 CHECKS = {
+ "C01": ("model_checking", "explicit-state BFS over the real SQLite wallet (snapshot/restore), state matching on a canonical logical dump, reference ledger oracle",
+         "Every reachable state of the real wallet under Scan(any contiguous run of segments)/Tip/Rewind+switch-branch operations over a generated block universe is visited (bounded by depth, one or two rewinds and the stated caps) and in each the balances, note rows and spent status are compared with a generation-time ledger; fully scanned states are compared with a fresh linear scan.",
+         "Trusted: SQLite, the protocol crates used to build really-encrypted compact outputs; expiry of orphaned transactions follows the documented 40-block rule; quick tier explores the 'tiny' universe under a wall cap (reported), thorough the 'small' and 'mid' universes.",
+         "DESIGN.md section 4 C01"),
+ "C02": ("fault_enumeration", "exhaustive fault injection through SQLite hooks (progress_handler / authorizer / commit_hook) at every VM step, statement compilation and commit boundary of each write operation",
+         "For each (write operation, pre-state) every SQLite VM step is interrupted, every statement compilation is made to fail and every commit is vetoed once; after each fault the full database dump must equal the pre-state (or the complete post-state), and repeating the operation must reach the uninterrupted post-state.",
+         "Trusted: SQLite atomic commit and rollback; interrupts inside BEGIN/COMMIT/ROLLBACK statements are not injected (SQLite artefact, see DESIGN.md); quick tier covers a subset of operations under a wall cap (reported).",
+         "DESIGN.md section 4 C02"),
+ "C03": ("exploration", "exhaustive shape-lattice and distance-1 byte/field mutation enumeration on the real codec, independent reference writer/parser",
+         "Every transaction of a (version, branch) x bundle-count x scalar-boundary lattice and every block header of a boundary lattice is written, read back and compared field-wise with an independent codec; every truncation, single-byte rewrite and count/amount/flag/branch field mutation of the lattice encodings and public vectors is parsed: no panic, no over-read, canonicity, accepted => round trip.",
+         "Trusted: group/field element decoding of the external crates (valid elements come from a fixed pool); values outside the lattices are covered through shared comparisons only.",
+         "DESIGN.md section 4 C03"),
+ "C04": ("exploration", "exhaustive field-position x hash-type enumeration against an independent ZIP 244/243/143 and v6 digest implementation plus a commitment matrix",
+         "Over the C03 lattice every field position is mutated and txid, auth commitment and every signature hash are compared with an independent implementation and with a must-change / must-not-change matrix written from the ZIPs.",
+         "Trusted: BLAKE2b/SHA-256; hashes treated as injective (one replacement value per field position).",
+         "DESIGN.md section 4 C04"),
+ "C05": ("model_checking", "exhaustive block-shape and corruption lattices through scan_block, plus exhaustive run-to-completion schedules of the batch decryption tasks under a harness executor (cfg seam)",
+         "Every block of a shape lattice is scanned and compared with generation-time ground truth; every single corruption of continuity metadata or field length must be an error with the wallet unchanged; every order (within the deviation bound) in which the batch trial-decryption tasks of scan_cached_blocks can run is executed on the real code and must give the ground-truth wallet state, identical to the inline path.",
+         "Schedules are exhaustive at task granularity (tasks share no memory; flume internals are not interleaved); known findings: panics on wrong-length hash/txid/height fields.",
+         "DESIGN.md section 4 C05"),
+ "C06": ("model_checking", "explicit-state BFS over the real SQLite wallet with tree oracles evaluated in every state",
+         "In every state of the C01-style state graph (plus subtree-root insertion) every retained checkpoint of every pool is compared with the chain frontier root recorded at generation time, every wallet note's Merkle path is recomputed from the leaf, pools must be checkpointed at the same heights and every scanned anchor-retention boundary must hold a checkpoint (also after more than 100 later checkpoints in the thorough universe).",
+         "Trusted: incrementalmerkletree frontier arithmetic and the pools' Merkle hashes; computability is demanded only when all blocks from the birthday are scanned.",
+         "DESIGN.md section 4 C06"),
+ "C07": ("exploration", "exhaustive lattice enumeration of inputs/outputs/policies/heights on the real fee rule and change strategies, independent i128 ZIP 317 oracle",
+         "Every case of a lattice of input/output multisets per pool x dust/split policies x heights x anchors x ephemeral balances is run through fee_required and both change strategies and checked for conservation, ZIP 317 fee of the final padded shape, dust clause, NU6.3 Orchard turnstile and truthful InsufficientFunds.",
+         "Values outside the alphabet are covered through shared comparisons; padding rule re-implemented from the documentation.",
+         "DESIGN.md section 4 C07"),
  "C09": ("exploration", "bounded exhaustive enumeration of operator x operand-lattice tuples on the real code, exact i128 oracle",
-         "Every constructor, parser, operator and 8-byte decoder of Zatoshis/ZatBalance is executed on every tuple of a boundary lattice that has a point on each side of every comparison and 64-bit wrap in value.rs, and on every single-byte rewrite of every lattice encoding; each result is compared with exact i128 arithmetic. Exhaustive inside the lattice; values outside it are covered only through the comparisons they share with a lattice point.",
-         "Trusted: rustc integer semantics; the lattice is derived from the constants in value.rs (0, +-MAX_MONEY, i64/u64 extremes); engines are built with overflow checks on so a wrap is a caught panic.",
+         "Every constructor, parser, operator and 8-byte decoder of Zatoshis/ZatBalance is executed on every tuple of a boundary lattice that has a point on each side of every comparison and 64-bit wrap in value.rs, and on every single-byte rewrite of every lattice encoding; each result is compared with exact i128 arithmetic.",
+         "Trusted: rustc integer semantics; engines are built with overflow checks on so a wrap is a caught panic.",
          "DESIGN.md section 4 C09"),
+ "C10": ("exploration", "exhaustive typecode-sequence / length / padding enumeration with an independent ZIP 316 encoder and F4Jumble, every length of the jumble domain, every distance-1 string mutation of seed addresses",
+         "All typecode sequences up to length 4 x item lengths x containers x networks x paddings are encoded independently and decoded by the real code against a ZIP 316 predicate; F4Jumble is checked on every length; every single-character mutation, truncation, checksum-variant and prefix swap of seed strings must not panic and, if accepted, re-encode canonically.",
+         "Trusted: bech32/bs58 checksum primitives (cross-checked at start-up); payloads are fillers because containers validate lengths only.",
+         "DESIGN.md section 4 C10"),
+ "C11": ("exploration", "exhaustive product over seeds x accounts x networks x diversifier-index lattice x all receiver requests x key levels, commutation and decryption laws",
+         "Encode/decode/re-encode equality at every key level, the commutation square of viewing-key derivation and address derivation over the full index/request lattice, index/scope recovery, and trial decryption of Sapling/Orchard/Ironwood notes under the right and every wrong key of the lattice.",
+         "Seeds are a finite set of shapes; external protocol crates trusted.",
+         "DESIGN.md section 4 C11"),
+ "C12": ("exploration", "exhaustive URI token-sequence enumeration against an independent ZIP 321 validity predicate; exhaustive amount sweeps",
+         "All parameter-token sequences up to length 3 (quick) / 4-5 (thorough) over a 35-token alphabet are rendered and parsed against an independent predicate and expected request; amounts are swept exhaustively in both directions (structure-complete subset in quick, all 10^8 fractions / 21M coins in thorough); labels, messages and memos over boundary lattices.",
+         "Accept/reject agreement demanded only where ZIP 321 is unambiguous (assumptions recorded in the evidence).",
+         "DESIGN.md section 4 C12"),
+ "C13": ("model_checking", "explicit-state search over all role orders on real PCZTs; exhaustive field-atom subset lattice for combine laws",
+         "All orders of the role multiset are explored as a state graph on builder-made PCZTs with the effects identity computed four ways in every state; combine is checked on all singleton/pair subsets of mechanically derived field atoms (union, commutativity, idempotence, associativity, conflicts); every copy round-trips through the encoding with the version predicate.",
+         "Real proofs only in the thorough tier; orchard/sapling/secp256k1 trusted.",
+         "DESIGN.md section 4 C13"),
+ "C14": ("exploration", "exhaustive builder shape lattice x heights x padding x fee rules x funding deltas, independent fee/decryption/signature oracle",
+         "Every builder request of the lattice is run through mock_build/build_for_pczt (+ real proofs for a few shapes in thorough) and the result is checked for requested spends/outputs plus zero-valued padding, exact fee of the final shape, recipient decryption, secp256k1-verified transparent signatures and correct refusals.",
+         "Padding model from the documentation; external protocol crates trusted.",
+         "DESIGN.md section 4 C14"),
+ "C15": ("model_checking", "explicit-state search of all insertion sequences on the real SpanningTree (two engines, counts must agree) and BFS over the real SQLite wallet with light-client steps",
+         "(a) every insertion sequence up to length 3 (quick) / 4 (thorough) over all ranges, priorities and the force flag, state = full tree shape, oracle = pointwise dominance table; (b) wallet state graph with client steps on suggested ranges, tips and rewinds: queue structure, Scanned iff scanned, strict progress of every client step, nothing suggested => fully scanned.",
+         "Free scans of non-suggested ranges are outside the property's quantifier; one known finding (tree conflict after tip-first scan + rewind).",
+         "DESIGN.md section 4 C15"),
+ "C16": ("exploration", "exhaustive boundary-balance x cap x buffer x fee x oracle-alphabet enumeration against an independent canonical split",
+         "Every balance within +-2 of every boundary expression of up to 3 quanta x note counts x caps x buffers x fees x nine preparation-cost oracles (incl. refusing, over-charging, stateful, usize::MAX) is planned twice with different RNGs and checked for canonicity, prefix of the reference split, exact conservation, residual bound and RNG independence.",
+         "Balances away from boundaries are covered through shared comparisons only.",
+         "DESIGN.md section 4 C16"),
+ "C17": ("exploration", "RNG treated as environment: exhaustive word sequences over threshold-derived alphabets; brute-force minimum piercing; full evidence lattice",
+         "All scripted RNG word sequences up to length 4 over alphabets derived from the code's thresholds drive delays, schedules, shuffles and anchor draws, checked against reference definitions; all wake-up instances up to 3-4 transfers are compared with a brute-force minimum; classification is checked on every covering edge of the full evidence lattice.",
+         "Streams under which rejection sampling does not terminate are excluded by the property; documented confirmatory-clause edges follow the documentation.",
+         "DESIGN.md section 4 C17"),
+ "C18": ("model_checking", "explicit-state search of the real MigrationState + advance_migration under all event interleavings with a scripted store, differential against the in-memory backend, SQLite save/load at explored states",
+         "The real lifecycle code is explored as a state graph over event interleavings (proofs, broadcasts ok/failed/unrecorded, mining, tip advances, rollbacks, shifts, cancel, supersede, store-oracle answers) for five 3-transaction DAG shapes; safety invariants on every state and transition, bounded liveness probe, and persistence round trips through the real SQLite store.",
+         "Only events a contract-following consumer can produce are in the alphabet; depth and state caps reported.",
+         "DESIGN.md section 4 C18"),
+ "C19": ("exploration", "complete Wagner solver + exhaustive mutation neighbourhoods against an independent bit-level verifier; full (n,k) parameter grid",
+         "All solutions of a complete solver for small parameters must verify; every single-bit flip, index permutation/substitution/duplication, length and near-miss must be accepted iff the independent verifier accepts; every (n,k) with n<=520 x boundary lengths must be an error, never a panic; the mainnet header path.",
+         "Trusted: BLAKE2b; parameter sets larger than those solved are covered through the grid and the header vector only.",
+         "DESIGN.md section 4 C19"),
+ "C20": ("model_checking", "explicit-state graph over leaf counts x {append, truncate} on the real Tree (full and minimal partial views), two engines, independent MMR rebuild",
+         "For every leaf count up to 64 (quick) / 1032 (thorough), three versions and seven leaf profiles, append and truncate are executed on full and minimal partial views and compared with an independent from-scratch MMR; all short op sequences from every base; node encodings over a byte lattice.",
+         "Overflowing counter sums are outside the domain; BLAKE2b trusted.",
+         "DESIGN.md section 4 C20"),
+}
+
+NOT_APPLICABLE = {
+ "C08": "check not built yet in this round (planned in DESIGN.md section 4 C08); nothing is claimed for it",
 }
 
 NOT_BUILT_REASON = "check not built yet in this round (planned in DESIGN.md); nothing is claimed for it"
@@ -52,7 +128,7 @@ def main():
                 "technique": tech,
             })
         else:
-            m["not_applicable"].append({"property_id": p, "reason": NOT_BUILT_REASON})
+            m["not_applicable"].append({"property_id": p, "reason": NOT_APPLICABLE.get(p, NOT_BUILT_REASON)})
     json.dump(m, open(f"{ROOT}/MANIFEST.json", "w"), indent=1)
     try:
         import jsonschema
